@@ -634,8 +634,8 @@ struct MonC10 : Monitor {
         if ((op == W_PROBE || op == W_TRAIN) && d.from_responder && d.src_node >= 0) {
             const Node &a = *w.nodes[d.src_node];
             // the frame A put on the wire for a descriptor (src = A, dst = B), delivered unmodified to B
-            if (mac_at(d.buf + OFF_ESRC) == a.attr.mac && mac_at(d.buf + OFF_EDST) == n.attr.mac && !d.internal_fault && !(node_getfail(w, d.node) & G_MAC) && !(node_getfail(w, d.src_node) & G_MAC)) {
-                expect[d.node].insert(Obs{a.attr.mac, a.attr.mac, n.attr.mac});
+            if (mac_at(d.buf + OFF_EDST) == n.attr.mac && !d.internal_fault && !(node_getfail(w, d.node) & G_MAC) && !(node_getfail(w, d.src_node) & G_MAC)) {
+                expect[d.node].insert(Obs{a.attr.mac, mac_at(d.buf + OFF_ESRC), n.attr.mac}); // real source A, Ethernet source as the descriptor said
                 w.note("c10_probe_delivered_to_peer");
                 if (expect[d.node].size() > 300) relaxed[d.node] = true;
             }
@@ -747,20 +747,24 @@ struct MonC12 : Monitor {
 struct MonC13 : Monitor {
     struct Last { bool have = false; uint32_t Ni0; int begun0; uint32_t r; uint64_t interval; };
     Last last;
+    // the model's own count of Hellos heard in the current block (the implementation's counter is what is being judged)
+    std::map<int, uint64_t> rm;
     const char *prop() const override { return "C13"; }
-    static uint32_t formula(uint32_t r) { unsigned __int128 v = (unsigned __int128)45 * r * r; return v > 10000 ? 10000u : (uint32_t)v; }
+    static uint32_t formula(uint64_t r) { unsigned __int128 v = (unsigned __int128)45 * r * r; return v > 10000 ? 10000u : (uint32_t)v; }
     static uint64_t min_interval(uint32_t Ni) { uint64_t num = 80ull * Ni, iv = num / 30 + (num % 30 ? 1 : 0); return iv < 6 ? 6 : iv; }
-    void block_end(World &w, uint64_t t, const glue_view &b, const glue_view &a, bool begun_eff, bool injected) {
-        uint32_t r = b.band_r;
+    void block_end(World &w, int node, uint64_t t, const glue_view &b, const glue_view &a, bool begun_eff, bool injected) {
+        uint64_t r = rm[node];
+        rm[node] = 0;
         w.note(injected ? "c13_block_end_injected_r" : "c13_block_end_real_r");
         if (r >= 65536) w.note("c13_r_ge_65536");
         if (r >= 10 && r < 65536) w.note("c13_r_10_to_65535");
         if (r > 0 && r < 10) w.note("c13_r_1_to_9");
+        if (r > 0 && !begun_eff) w.note("c13_hellos_before_begun");
         if (r > 0 && begun_eff) {
             uint32_t want = formula(r);
-            if (a.band_Ni != want) w.violate("C13", "ni-formula", fmt("block end with r=%u: repetition count became %u, expected min(10000, 45*r^2) = %u", r, a.band_Ni, want));
-        } else if (a.band_Ni != b.band_Ni) w.violate("C13", "ni-changed-without-load", fmt("block end with r=%u begun=%d changed the count from %u to %u", r, begun_eff, b.band_Ni, a.band_Ni));
-        if (a.band_Ni < 45 || a.band_Ni > 10000) w.violate("C13", "ni-range", fmt("repetition count %u outside [45, 10000] after a block with r=%u", a.band_Ni, r));
+            if (a.band_Ni != want) w.violate("C13", "ni-formula", fmt("block end with r=%llu Hellos heard in the block: repetition count became %u, expected min(10000, 45*r^2) = %u", (unsigned long long)r, a.band_Ni, want));
+        } else if (a.band_Ni != b.band_Ni) w.violate("C13", "ni-changed-without-load", fmt("block end with r=%llu begun=%d changed the count from %u to %u", (unsigned long long)r, begun_eff, b.band_Ni, a.band_Ni));
+        if (a.band_Ni < 45 || a.band_Ni > 10000) w.violate("C13", "ni-range", fmt("repetition count %u outside [45, 10000] after a block with r=%llu", a.band_Ni, (unsigned long long)r));
         uint64_t need = min_interval(a.band_Ni);
         if (a.band_hello_ts < t + need) w.violate("C13", "interval-too-short", fmt("next Hello scheduled %lld ms after the block end, load formula for count %u requires >= %llu", (long long)(a.band_hello_ts - t), a.band_Ni, (unsigned long long)need));
         uint64_t interval = a.band_hello_ts - t;
@@ -768,32 +772,38 @@ struct MonC13 : Monitor {
         if (last.have && formula_applies && last.Ni0 == b.band_Ni) {
             w.note("c13_monotone_pair");
             if ((last.r <= r && last.interval > interval) || (last.r >= r && last.interval < interval))
-                w.violate("C13", "not-monotone", fmt("from the same state, r=%u gives interval %llu ms but r=%u gives %llu ms", last.r, (unsigned long long)last.interval, r, (unsigned long long)interval));
+                w.violate("C13", "not-monotone", fmt("from the same state, r=%u gives interval %llu ms but r=%llu gives %llu ms", last.r, (unsigned long long)last.interval, (unsigned long long)r, (unsigned long long)interval));
         }
-        if (formula_applies) last = {true, b.band_Ni, 1, r, interval}; else last.have = false;
+        if (formula_applies) last = {true, b.band_Ni, 1, (uint32_t)std::min<uint64_t>(r, 0xFFFFFFFFull), interval}; else last.have = false;
     }
     void on_tick(World &w, TickRec &t) override {
         if (!t.before.have_band) return;
         if (t.after.band_block_ts != t.before.band_block_ts && t.after.band_block_ts != 0 && t.before.band_block_ts != 0) {
             bool sent = false;
             for (auto &tx : t.txs) if (tx.channel == 1) sent = true;
-            block_end(w, t.t, t.before, t.after, t.before.band_begun || sent, false);
+            block_end(w, t.node, t.t, t.before, t.after, t.before.band_begun || sent, w.plan.api_world);
         }
     }
     void on_delivery(World &w, Delivery &d) override {
-        if (!d.before.have_band || w.nodes[d.node]->cfg.glue != GLUE_DARWIN) return;
-        // the tick that follows every frame in the Darwin flow can end a block; r/begun may have been changed by this very frame
-        if (d.after.band_block_ts != d.before.band_block_ts && d.after.band_block_ts != 0 && d.before.band_block_ts != 0 && d.after.band_r == 0 && d.buf[OFF_OP] != W_DISCOVER) {
-            glue_view b = d.before;
-            bool begun = b.band_begun;
-            if (d.buf[OFF_OP] == W_HELLO) { b.band_r++; if (b.band_r >= 10) begun = true; }
+        if (!d.ran || !d.before.have_band || w.nodes[d.node]->cfg.glue != GLUE_DARWIN) return;
+        uint8_t op = d.buf[OFF_OP];
+        if (op == W_HELLO) rm[d.node]++;                                       // heard in the current block
+        if (op == W_DISCOVER && d.before.enum_state == 0) rm[d.node] = 0;       // a new enumeration (and its first block) starts with this frame
+        // the tick that follows every frame in the Darwin flow can end a block
+        if (d.after.band_block_ts != d.before.band_block_ts && d.after.band_block_ts != 0 && d.before.band_block_ts != 0 && !(op == W_DISCOVER && d.before.enum_state == 0)) {
+            bool begun = d.before.band_begun;
+            if (op == W_HELLO && rm[d.node] >= 10) begun = true;
+            if (op == W_DISCOVER) begun = true; // a Discover during an enumeration marks it begun
             bool sent = false;
             for (auto &tx : d.txs) if (tx.channel == 1) sent = true;
-            block_end(w, d.t + (d.after.band_block_ts - 300 - d.t), b, d.after, begun || sent, false);
+            block_end(w, d.node, d.after.band_block_ts - 300, d.before, d.after, begun || sent, false);
         }
     }
     void on_api(World &w, int, const Op &op, const glue_view &b, const glue_view &a, int64_t) override {
-        if (op.kind == OP_A_BLOCKEND) block_end(w, w.now, b, a, b.band_begun != 0, true);
+        if (op.kind == OP_A_HEARD) rm[0] += (uint64_t)op.a[0];
+        else if (op.kind == OP_A_SETR) rm[0] = (uint64_t)op.a[0];
+        else if (op.kind == OP_A_DISCBOOK && b.enum_state == 0) rm[0] = 0;
+        else if (op.kind == OP_A_BLOCKEND) block_end(w, 0, w.now, b, a, b.band_begun != 0, true);
     }
 };
 
@@ -801,6 +811,8 @@ struct MonC13 : Monitor {
 struct MonC14 : Monitor {
     std::map<int, uint64_t> inact_reset_s; // last mapping_reset_inactive_timeout (whole seconds), per node
     std::map<int, bool> inact_dirty;       // API world: state legitimately changed after the deadline may have fired
+    std::map<int, uint64_t> last_input_s;  // the model's own record of when the engine last saw an input (never read back from the implementation)
+    void on_start(World &w) override { for (size_t i = 0; i < w.nodes.size(); i++) last_input_s[(int)i] = w.now / 1000; }
     const char *prop() const override { return "C14"; }
     static std::set<int> step(int s, int input, uint64_t elapsed, const int *timeout, bool fuzzy) {
         std::set<int> r;
@@ -822,9 +834,12 @@ struct MonC14 : Monitor {
     void on_api(World &w, int, const Op &op, const glue_view &b, const glue_view &a, int64_t) override {
         if (op.kind == OP_A_INACT) { inact_reset_s[0] = w.now / 1000; inact_dirty[0] = false; }
         if ((op.kind == OP_A_TADD || op.kind == OP_A_MAP || op.kind == OP_A_CHARGE || op.kind == OP_A_SETMAP) && inact_reset_s.count(0) && w.now / 1000 - inact_reset_s[0] >= 29) inact_dirty[0] = true;
+        if (op.kind == OP_A_SETMAP) last_input_s[0] = w.now / 1000 - (uint64_t)op.a[1];
+        if (op.kind == OP_A_TICK && b.mapping_state != 0 && a.mapping_state == 0) last_input_s[0] = w.now / 1000; // the tick fed the timeout event
         if (op.kind != OP_A_MAP) return;
         check_timeouts(w, b);
-        uint64_t el = w.now / 1000 - b.mapping_last_ts;
+        uint64_t el = w.now / 1000 - last_input_s[0];
+        last_input_s[0] = w.now / 1000;
         int in = (int)op.a[0];
         auto allowed = step(b.mapping_state, in, el, b.mapping_timeout, false);
         int ec = el == 0 ? 0 : (b.mapping_state && el + 1 == (uint64_t)b.mapping_timeout[b.mapping_state]) ? 1 : (b.mapping_state && el == (uint64_t)b.mapping_timeout[b.mapping_state]) ? 2 : (b.mapping_state && el == (uint64_t)b.mapping_timeout[b.mapping_state] + 1) ? 3 : 4;
@@ -850,14 +865,19 @@ struct MonC14 : Monitor {
             if (b.table_count > 0 && a.table_count == 0 && !old) w.violate("C14", "premature-inactivity", fmt("tick emptied the session table only %llu s after the last frame", (unsigned long long)idle));
         }
     }
-    void on_tick(World &w, TickRec &t) override { tick_rule(w, t.node, t.t, t.before, t.after); }
+    void on_tick(World &w, TickRec &t) override {
+        tick_rule(w, t.node, t.t, t.before, t.after);
+        if (t.before.mapping_state != 0 && t.after.mapping_state == 0) last_input_s[t.node] = t.t / 1000;
+    }
     void on_delivery(World &w, Delivery &d) override {
         if (!d.ran || !d.before.have_mapping) return;
         int glue = w.nodes[d.node]->cfg.glue;
         if (glue != GLUE_DARWIN && glue != GLUE_LEGACY) return;
         check_timeouts(w, d.before);
-        uint64_t el = d.t / 1000 - d.before.mapping_last_ts;
-        auto allowed = step(d.before.mapping_state, d.buf[OFF_OP], el, d.before.mapping_timeout, (d.t % 1000) != 0);
+        if (!last_input_s.count(d.node)) last_input_s[d.node] = w.plan.t0 / 1000;
+        uint64_t el = d.t / 1000 - last_input_s[d.node];
+        last_input_s[d.node] = d.t / 1000;
+        auto allowed = step(d.before.mapping_state, d.buf[OFF_OP], el, d.before.mapping_timeout, true);
         w.note("c14_passive_step");
         if (!allowed.count(d.after.mapping_state))
             w.violate("C14", "transition", fmt("frame with opcode %u in state %d (%llu s since last input): went to %d", d.buf[OFF_OP], d.before.mapping_state, (unsigned long long)el, d.after.mapping_state));
@@ -867,6 +887,8 @@ struct MonC14 : Monitor {
 
 // ---------------------------------------------------------------- C15: session automaton
 struct MonC15 : Monitor {
+    std::map<int, uint64_t> last_input_s; // model-side time of the last session event
+    void on_start(World &w) override { for (size_t i = 0; i < w.nodes.size(); i++) last_input_s[(int)i] = w.now / 1000; }
     const char *prop() const override { return "C15"; }
     static std::set<int> table(int s, int e) {
         switch (s) {
@@ -890,10 +912,12 @@ struct MonC15 : Monitor {
         return r;
     }
     void on_api(World &w, int, const Op &op, const glue_view &b, const glue_view &a, int64_t) override {
+        if (op.kind == OP_A_SETSESS) last_input_s[0] = w.now / 1000 - (uint64_t)op.a[1];
         if (op.kind != OP_A_SESS) return;
         int e = (int)op.a[0];
+        uint64_t el = w.now / 1000 - last_input_s[0];
+        last_input_s[0] = w.now / 1000;
         if (e < 0 || e > 7 || b.session_state < 0 || b.session_state > 3) return;
-        uint64_t el = w.now / 1000 - b.session_last_ts;
         int to = b.session_timeout[b.session_state];
         int ec = el == 0 ? 0 : (el + 1 == (uint64_t)to) ? 1 : (el == (uint64_t)to) ? 2 : (el == (uint64_t)to + 1) ? 3 : 4;
         w.cell(15, ((uint64_t)b.session_state << 8) | ((uint64_t)e << 4) | (uint64_t)ec);
@@ -905,9 +929,12 @@ struct MonC15 : Monitor {
     void on_delivery(World &w, Delivery &d) override {
         if (!d.ran || !d.before.have_session || w.nodes[d.node]->cfg.glue != GLUE_DARWIN) return;
         int e = d.after.last_sess_event;
-        if (e < 0 || e > 7 || d.before.session_state > 3) return;
-        uint64_t el = d.t / 1000 - d.before.session_last_ts;
-        auto allowed = step(d.before.session_state, e, el, d.before.session_timeout, (d.t % 1000) != 0);
+        if (e < 0) return; // the Darwin flow feeds the session automaton only when the classifier produced an event
+        if (!last_input_s.count(d.node)) last_input_s[d.node] = w.plan.t0 / 1000;
+        uint64_t el = d.t / 1000 - last_input_s[d.node];
+        last_input_s[d.node] = d.t / 1000;
+        if (e > 7 || d.before.session_state > 3) return;
+        auto allowed = step(d.before.session_state, e, el, d.before.session_timeout, true);
         w.note("c15_passive_step");
         if (!allowed.count(d.after.session_state))
             w.violate("C15", "transition", fmt("frame classified as event %d in state %d (%llu s since last input): went to %d", e, d.before.session_state, (unsigned long long)el, d.after.session_state));
